@@ -123,7 +123,7 @@ fn bound(func: &str) -> (f64, f64) {
         ("std", _) | ("libm", _) => (ulp4, 1e-37),
         ("mm", "sin") | ("mm", "cos") => (0.0, 2e-3),
         ("mm", "tan") => (1e-2, 2e-3),
-        ("mm", "sqrt") => (3e-3, 0.0),
+        ("mm", "sqrt") => (3e-3, 1e-30),
         ("mm", "recip_sqrt") => (3e-3, 0.0),
         ("mm", "asin") | ("mm", "acos") => (0.0, 4e-2),
         ("mm", "atan2") => (0.0, 5e-3),
@@ -202,6 +202,38 @@ fn run(cfg: &Cfg, rep: &mut Report) {
             Err(format!("[{BACKEND}] {}", bad.join(", ")))
         }
     });
+    if let Some(f) = b.atan2 {
+        rep.pin("F20.atan2_zero_zero", {
+            let bad: Vec<String> = [(0.0f32, 0.0f32), (-0.0, 0.0)].iter().filter_map(|&(y, x)| match catch(|| f(y, x)) {
+                Ok(g) if g == 0.0 => None,
+                Ok(g) => Some(format!("[{BACKEND}] atan2({y:?}, {x:?}) = {g:?}, std gives 0")),
+                Err(m) => Some(format!("[{BACKEND}] atan2({y:?}, {x:?}) panicked: {m}")),
+            }).collect();
+            if bad.is_empty() { Ok(()) } else { Err(bad.join("; ")) }
+        });
+    }
+    if let Some(f) = b.sqrt {
+        rep.pin("F19.sqrt_negative_zero", {
+            match catch(|| f(-0.0)) {
+                Ok(g) if g == 0.0 => Ok(()),
+                Ok(g) => Err(format!("[{BACKEND}] sqrt(-0.0) = {g:?}, std gives -0.0")),
+                Err(m) => Err(format!("[{BACKEND}] sqrt(-0.0) panicked: {m}")),
+            }
+        });
+    }
+    if let Some(f) = b.powf {
+        rep.pin("F18.powf_zero_base", {
+            let bad: Vec<String> = [(0.0f32, 0.01f32, 0.0f32), (0.0, 0.1, 0.0), (-0.0, 0.01, 0.0), (-0.0, 2.0, 0.0), (0.0, 0.0, 1.0), (-0.0, 0.0, 1.0)]
+                .iter()
+                .filter_map(|&(x, y, e)| match catch(|| f(x, y)) {
+                    Ok(g) if (g - e).abs() <= 1e-6 => None,
+                    Ok(g) => Some(format!("[{BACKEND}] powf({x:?}, {y:?}) = {g:?}, std gives {e}")),
+                    Err(m) => Some(format!("[{BACKEND}] powf({x:?}, {y:?}) panicked: {m}")),
+                })
+                .collect();
+            if bad.is_empty() { Ok(()) } else { Err(bad.join("; ")) }
+        });
+    }
     if let (Some(p), true) = (b.powf, BACKEND == "mm") {
         rep.pin("F8b.mm_powf_gamma", {
             let (x, y) = (0.7f32, 2.2f32);
@@ -357,6 +389,35 @@ fn run(cfg: &Cfg, rep: &mut Report) {
                 judge_approx(rep, "powf", &[x, y], f(x, y), (x as f64).powf(y as f64));
             }
         }
+        // zero base: 0^0 = 1, 0^y = 0 for y > 0, 0^y = ∞ for y < 0
+        if let (Some(f), true) = (b.powf, i % 64 == 0) {
+            let x = if rng.bool() { 0.0f32 } else { -0.0 };
+            let y = rng.pick(&[0.0f32, -0.0, 1.0, 2.0, 3.0, 2.2, 0.5, 1.0 / 2.2, 0.1, 0.01, 1e-6, -1.0, -2.0, -0.5, -2.2, -1e-3]);
+            let y = if rng.chance(1, 4) { rng.f32_in(-3.0, 3.0) } else { y };
+            let got = match rftk::catch(|| f(x, y)) {
+                Ok(g) => g,
+                Err(m) => {
+                    rep.violation(&format!("fp.{BACKEND}.powf_panicked"), format!("[{BACKEND}] powf({x:?}, {y:?}) panicked: {m}"), Json::obj().set("backend", BACKEND).set("function", "powf").set("args", Json::Arr(vec![Json::Str(f32s(x)), Json::Str(f32s(y))])));
+                    return;
+                }
+            };
+            rep.count("powf.zero_base");
+            let cj = || Json::obj().set("backend", BACKEND).set("function", "powf").set("args", Json::Arr(vec![Json::Str(f32s(x)), Json::Str(f32s(y))]));
+            if y == 0.0 {
+                judge_approx(rep, "powf", &[x, y], got, 1.0);
+            } else if y > 0.0 {
+                // (−0)^odd integer is −0; magnitudes are what is judged
+                let err = got.abs() as f64;
+                let (_, abs) = bound("powf");
+                if !(err <= abs) {
+                    rep.violation(&format!("fp.{BACKEND}.powf_out_of_bound"), format!("[{BACKEND}] powf({x:?}, {y:?}) = {got}; reference 0; error {err:.3e} exceeds the bound (abs {abs:.1e})"), cj());
+                }
+            } else if !(got.abs() >= 1e30) {
+                // a pole, not a point of the domain: driven (a panic is still
+                // caught above) and counted, the value is not judged
+                rep.count("powf.zero_base_negative_exponent_finite_result(pole, unjudged)");
+            }
+        }
         rep.count("approx_points");
         if i < 3 {
             rep.sample(|| Json::obj().set("backend", BACKEND).set("sweep_parameter_u", u).set("functions", "every function the backend exports, evaluated at the point derived from u"));
@@ -364,6 +425,87 @@ fn run(cfg: &Cfg, rep: &mut Report) {
     });
 
     // ---- consequences for the library code built on the helpers
+    // Edge points of every domain: zeros of either sign, the axes of atan2,
+    // ±1 for the inverse functions, unit base / zero exponent for powf.
+    rep.run_stream(cfg, 7, "domain_edge_points", 1, |_, _, rep| {
+        use std::f64::consts::{FRAC_PI_2, PI};
+        let mut one = |rep: &mut Report, func: &str, args: &[f32], call: &dyn Fn() -> f32, exp: f64| {
+            rep.count("edge_points");
+            match catch(call) {
+                Ok(got) => {
+                    if got.is_nan() {
+                        rep.violation(&format!("fp.{BACKEND}.{func}_nan_at_edge_point"), format!("[{BACKEND}] {func}({args:?}) = NaN; reference {exp}"), Json::obj().set("backend", BACKEND).set("function", func).set("args", Json::Arr(args.iter().map(|a| Json::Str(f32s(*a))).collect())));
+                    } else {
+                        judge_approx(rep, func, args, got, exp);
+                    }
+                }
+                Err(m) => rep.violation(&format!("fp.{BACKEND}.{func}_panicked"), format!("[{BACKEND}] {func}({args:?}) panicked: {m}"), Json::obj().set("backend", BACKEND).set("function", func).set("args", Json::Arr(args.iter().map(|a| Json::Str(f32s(*a))).collect()))),
+            }
+        };
+        for z in [0.0f32, -0.0] {
+            if let Some(f) = b.sqrt {
+                one(rep, "sqrt", &[z], &|| f(z), 0.0);
+            }
+            if let Some(f) = b.sin {
+                one(rep, "sin", &[z], &|| f(z), 0.0);
+            }
+            if let Some(f) = b.cos {
+                one(rep, "cos", &[z], &|| f(z), 1.0);
+            }
+            if let Some(f) = b.tan {
+                one(rep, "tan", &[z], &|| f(z), 0.0);
+            }
+            if let Some(f) = b.exp {
+                one(rep, "exp", &[z], &|| f(z), 1.0);
+            }
+            if let Some(f) = b.asin {
+                one(rep, "asin", &[z], &|| f(z), 0.0);
+            }
+            if let Some(f) = b.acos {
+                one(rep, "acos", &[z], &|| f(z), FRAC_PI_2);
+            }
+            if let Some(f) = b.atan2 {
+                // IEEE/std: atan2(±0, +x) = ±0, atan2(±0, −x) = ±π,
+                // atan2(±y, ±0) = ±π/2, atan2(±0, +0) = ±0
+                one(rep, "atan2", &[z, 0.0], &|| f(z, 0.0), 0.0);
+                for m in [1e-3f32, 1.0, 1e3] {
+                    one(rep, "atan2", &[z, m], &|| f(z, m), 0.0);
+                    one(rep, "atan2", &[m, z], &|| f(m, z), FRAC_PI_2);
+                    one(rep, "atan2", &[-m, z], &|| f(-m, z), -FRAC_PI_2);
+                    // ±π are the same direction
+                    if let Ok(g) = catch(|| f(z, -m)) {
+                        one(rep, "atan2", &[z, -m], &|| g, if g < 0.0 { -PI } else { PI });
+                    } else {
+                        one(rep, "atan2", &[z, -m], &|| f(z, -m), PI);
+                    }
+                }
+            }
+        }
+        for s in [1.0f32, -1.0] {
+            if let Some(f) = b.asin {
+                one(rep, "asin", &[s], &|| f(s), s as f64 * FRAC_PI_2);
+            }
+            if let Some(f) = b.acos {
+                one(rep, "acos", &[s], &|| f(s), if s > 0.0 { 0.0 } else { PI });
+            }
+        }
+        if let Some(f) = b.powf {
+            for x in [1e-3f32, 0.5, 1.0, 2.0, 10.0] {
+                one(rep, "powf", &[x, 0.0], &|| f(x, 0.0), 1.0);
+                one(rep, "powf", &[x, 1.0], &|| f(x, 1.0), x as f64);
+            }
+            for y in [-3.0f32, -1.0, 0.5, 2.2, 3.0] {
+                one(rep, "powf", &[1.0, y], &|| f(1.0, y), 1.0);
+            }
+        }
+        if let Some(f) = b.sqrt {
+            one(rep, "sqrt", &[1.0], &|| f(1.0), 1.0);
+        }
+        if let Some(f) = b.recip_sqrt {
+            one(rep, "recip_sqrt", &[1.0], &|| f(1.0), 1.0);
+        }
+    });
+
     rep.run_stream(cfg, 3, "pixel_rounding(tri_fill)", cfg.n(60_000, 3_000_000), |rng, _, rep| {
         use re::geom::vertex;
         use re::math::point::pt3;
